@@ -11,7 +11,7 @@ import z3
 from .values import (INT, REAL, BOOL, STR, XR, VAL, Z, X, Opt, Arr, Frame, SDict, Obj, Opaque, Ref,
                      PyList, fresh_name, ValSort, x_nan)
 from . import xops
-from .engine import (Unsupported, RaiseSig, lift, to_int, to_real, zbool, is_sym, INF)
+from .engine import (_chk, Unsupported, RaiseSig, lift, to_int, to_real, zbool, is_sym, INF)
 
 
 class Marker:
@@ -292,7 +292,7 @@ def compress_map(E, mask, node=None):
         E.qf.push()
         E.qf.add(neg)
         E.qf.set('timeout', 500)
-        res = E.qf.check()
+        res = _chk(E.qf)
         E.qf.pop()
         if res == z3.unsat:
             E.st.ghost[key] = E.st.ghost[okey]
